@@ -12,6 +12,7 @@ LEVEL = {
  'C05': ("proof", "Foreign delete / pose update behaviours are proved to refuse (or drop) and leave the world unchanged; the owner field is set only at creation and participant ids are strictly increasing (C10).", "§10 C05"),
  'C06': ("proof", "leaveSession's postcondition over the whole view (entities, components, subscriptions, members, one delete relay per removed entity via content-keyed event counters, one leave relay) is proved with an inductive invariant over the departing participant's entity-id set.", "§10 C06"),
  'C07': ("proof", "Registry operations (Add/Remove/GetByGlobalID) are proved against a registry invariant (key = gid(id), ids live, gauge total); join success registers the session and the participant, last leave unregisters and closes.", "§10 C07"),
+ 'C09': ("proof", "Lock discipline as a sufficient condition for data-race freedom on the declared fields and for deadlock freedom among the mutexes: every access to a guarded_by field in every function of models, websocket, modules, featureflag, receipt and http is proved to happen with its mutex held in a sufficient mode (or inside sync.Once.Do, or on an object still under construction), every acquisition respects the global level order (also through contracted callees and callbacks), and every function returns with the locks it entered with. Holds for all schedules and any number of connections.", "§10 C09"),
  'C10': ("proof", "SequentialIDGenerator.New/Reuse against the defined live-set view; monotone generators never reissue; type registration ids; new session ids are not live before.", "§10 C10"),
  'C11': ("proof", "HandleEntityUpdatePose behaviours (unknown, foreign, no pose: dropped with no effect; otherwise stored pose equals the update and one relay carries it); timing and coalescing are outside the technique.", "§10 C11"),
  'C12': ("proof", "Every EntityComponentStore method is proved against the abstract map view (whole-view postconditions, store invariant preserved) and every component handler against behaviours taken from the property statement.", "§10 C12"),
